@@ -485,3 +485,415 @@ theorem acquireEntry_slow (s : State) (hp : PlainHoldNothing s) (i k : Nat) (hc 
     all_goals exact finish false
 
 end Asynkit.GenEqLock
+
+namespace Asynkit.GenEqLock
+open Asynkit Asynkit.Lock Asynkit.PrioGraph
+
+/-! ### `acquire`, resumed at `await fut` -/
+
+/-- the kernel's part of `Ev.resume`: the loop pops the task's handle, `Task.__step` resumes the coroutine -/
+def kernelResume (s : State) (i : Nat) : State :=
+  { s.setTask i { s.tasks i with status := .running, mustCancel := false, rkey := none } with cur := some i }
+
+/-- model bookkeeping when the coroutine leaves `acquire`: it is not suspended inside it any more -/
+def leaveAcquire (S : State) (i : Nat) : State := S.setTask i { S.tasks i with pos := .top }
+
+/-- the model clears `pos` and `_waiting_on` *before* the wake-up / propagation of the `finally` clause,
+    Python clears `_waiting_on` after it (on leaving the `with` block); `upd` is that early clearing and
+    the lemmas below show that it commutes with everything the `finally` clause does -/
+def upd (S : State) (i : Nat) : State := S.setTask i { S.tasks i with pos := .top, waitingOn := none }
+
+theorem upd_eff (S : State) (i j : Nat) : (upd S i).eff j = S.eff j := by
+  apply eff_eq_of_graph
+  · apply graph_eq_of
+    · intro t; by_cases c : t = i <;> simp [upd, c]
+    · intro t; by_cases c : t = i <;> simp [upd, c]
+    · intro l; rfl
+  · rfl
+
+theorem upd_setTask_ne (S : State) (i o : Nat) (t : Task) (h : o ≠ i) :
+    (upd S i).setTask o t = upd (S.setTask o t) i := by
+  apply state_ext <;> try rfl
+  funext j
+  by_cases c1 : j = i <;> by_cases c2 : j = o <;> simp [upd, c1, c2, h]
+  · subst c1; exact absurd c2.symm h
+  · subst c1; simp [Ne.symm h]
+
+theorem upd_setLock (S : State) (i k : Nat) (l : LockSt) : (upd S i).setLock k l = upd (S.setLock k l) i := by
+  apply state_ext <;> rfl
+
+mutual
+theorem upd_propT (i : Nat) : ∀ (f : Nat) (S : State) (o : Nat), (S.tasks i).status.runnable = true →
+    propT (upd S i) f o = upd (propT S f o) i
+  | 0, S, o, _ => by simp [propT]
+  | f + 1, S, o, hr => by
+    have hpl : (upd S i).prioLoop = S.prioLoop := rfl
+    by_cases c : o = i
+    · subst c
+      have h1 : ((upd S o).tasks o).prio = (S.tasks o).prio := by simp [upd]
+      have h2 : ((upd S o).tasks o).status = (S.tasks o).status := by simp [upd]
+      have h3 : ((upd S o).tasks o).rkey = (S.tasks o).rkey := by simp [upd]
+      simp only [propT, h1, h2, h3, hr, if_true, upd_eff, hpl]
+      by_cases hn : (S.tasks o).prio.isNone = true
+      · simp only [hn, if_true]
+      · simp only [hn, Bool.false_eq_true, if_false]
+        by_cases hk : (S.prioLoop && (S.tasks o).rkey.isSome) = true
+        · simp only [hk, if_true]
+          apply state_ext <;> try rfl
+          funext j; by_cases c : j = o <;> simp [upd, c]
+        · simp only [hk, Bool.false_eq_true, if_false]
+    · have ht : (upd S i).tasks o = S.tasks o := by simp [upd, c]
+      simp only [propT, ht, upd_eff, hpl]
+      by_cases hn : (S.tasks o).prio.isNone = true
+      · simp only [hn, if_true]
+      · simp only [hn, Bool.false_eq_true, if_false]
+        by_cases hru : (S.tasks o).status.runnable = true
+        · simp only [hru, if_true]
+          by_cases hk : (S.prioLoop && (S.tasks o).rkey.isSome) = true
+          · simp only [hk, if_true]; exact upd_setTask_ne S i o _ c
+          · simp only [hk, Bool.false_eq_true, if_false]
+        · simp only [hru, Bool.false_eq_true, if_false]
+          cases hw : (S.tasks o).waitingOn with
+          | none => rfl
+          | some k1 => exact upd_propL i f S k1 o hr
+theorem upd_propL (i : Nat) : ∀ (f : Nat) (S : State) (k from_ : Nat), (S.tasks i).status.runnable = true →
+    propL (upd S i) f k from_ = upd (propL S f k from_) i
+  | 0, S, k, from_, _ => by simp [propL]
+  | f + 1, S, k, from_, hr => by
+    have hl : (upd S i).locks = S.locks := rfl
+    simp only [propL, hl]
+    split
+    · rename_i o _
+      rw [upd_propT i f S o hr]
+      simp only [upd_eff]
+      exact upd_setLock _ i k _
+    · simp only [upd_eff]
+      exact upd_setLock _ i k _
+end
+
+theorem upd_wakeUpFirst (S : State) (i k : Nat) (hr : (S.tasks i).status = .running) :
+    (upd S i).wakeUpFirst k = upd (S.wakeUpFirst k) i := by
+  have hl : (upd S i).locks = S.locks := rfl
+  unfold State.wakeUpFirst
+  simp only [hl]
+  split
+  · rfl
+  · split
+    · rfl
+    · rename_i w _
+      by_cases c : w.task = i
+      · have h1 : (((upd S i).setLock k { S.locks k with waiters := setFutOf (S.locks k).waiters w.task .result }).tasks w.task).status = .running := by
+          simp [upd, c, hr]
+        have h2 : ((S.setLock k { S.locks k with waiters := setFutOf (S.locks k).waiters w.task .result }).tasks w.task).status = .running := by
+          simp [c, hr]
+        simp only [h1, h2]
+        simp only [show (Status.running = Status.blocked) = False by simp, if_false]
+        exact upd_setLock S i k _
+      · have h1 : (((upd S i).setLock k { S.locks k with waiters := setFutOf (S.locks k).waiters w.task .result }).tasks w.task) = S.tasks w.task := by
+          simp [upd, c]
+        have h2 : ((S.setLock k { S.locks k with waiters := setFutOf (S.locks k).waiters w.task .result }).tasks w.task) = S.tasks w.task := by
+          simp
+        simp only [h1, h2]
+        split
+        · simp only [State.enqueue]
+          rw [upd_setLock]
+          have he : (upd (S.setLock k { S.locks k with waiters := setFutOf (S.locks k).waiters w.task .result }) i).eff w.task =
+              (S.setLock k { S.locks k with waiters := setFutOf (S.locks k).waiters w.task .result }).eff w.task := upd_eff _ _ _
+          have ht : (upd (S.setLock k { S.locks k with waiters := setFutOf (S.locks k).waiters w.task .result }) i).tasks w.task = S.tasks w.task := by
+            simp [upd, c]
+          have hp : (upd (S.setLock k { S.locks k with waiters := setFutOf (S.locks k).waiters w.task .result }) i).prioLoop =
+              (S.setLock k { S.locks k with waiters := setFutOf (S.locks k).waiters w.task .result }).prioLoop := rfl
+          rw [he, ht, hp]
+          have ht2 : (S.setLock k { S.locks k with waiters := setFutOf (S.locks k).waiters w.task .result }).tasks w.task = S.tasks w.task := by simp
+          rw [ht2]
+          exact upd_setTask_ne _ i w.task _ c
+        · exact upd_setLock S i k _
+
+end Asynkit.GenEqLock
+
+namespace Asynkit.GenEqLock
+open Asynkit Asynkit.Lock Asynkit.PrioGraph
+
+/-- the queue entry of `i` removed from the state in which the kernel resumed `i` -/
+def T (s : State) (i k : Nat) : State := pqRemove (kernelResume s i) k i
+
+theorem rs1_eq (s : State) (i k : Nat) : rs1 s i k = upd (T s i k) i := by
+  apply state_ext <;> try rfl
+  funext j; by_cases c : j = i <;> simp [rs1, upd, T, pqRemove, kernelResume, c]
+
+theorem leave_clear (Y : State) (i : Nat) : leaveAcquire (setWaitingOn Y i none) i = upd Y i := by
+  apply state_ext <;> try rfl
+  funext j; by_cases c : j = i <;> simp [leaveAcquire, setWaitingOn, upd, c]
+
+theorem leave_plain (Y : State) (i : Nat) (h : (Y.tasks i).waitingOn = none) : leaveAcquire Y i = upd Y i := by
+  apply state_ext <;> try rfl
+  funext j; by_cases c : j = i
+  · subst c; simp [leaveAcquire, upd, h.symm]
+  · simp [leaveAcquire, upd, c]
+
+/-- **resumed by the future's result**: `_take_lock`, the `finally` clause (the waiter leaves the
+    queue; the lock is locked and owned by the task itself, so nothing is woken or propagated), the exit
+    of `_waiting_on`, `return True` - is the model's `Ev.resume` of a waiter that was handed the lock -/
+theorem acquireResumeValue_eq (s : State) (i k : Nat) (ho : (s.locks k).owner = none)
+    (hw : (s.tasks i).waitingOn = if isPrio s i then some k else none) :
+    ∃ R, Gen.lockAcquireResumeValue (noteOwned (kernelResume s i) i k) k (isPrio s i) k i i i = .ok R ∧
+      leaveAcquire R i = (rs1 s i k).takeLock k i := by
+  unfold Gen.lockAcquireResumeValue
+  have hko : ((kernelResume s i).locks k).owner = none := ho
+  rw [takeLock_eq (kernelResume s i) k i hko]
+  have hlocked : lockLocked (pqRemove ((kernelResume s i).takeLock k i) k i) k = true := by
+    simp [lockLocked, pqRemove, State.takeLock]
+  have howner : lockOwning (pqRemove ((kernelResume s i).takeLock k i) k i) k = some i := by
+    simp [lockOwning, pqRemove, State.takeLock]
+  have hprio : isPrio (pqRemove ((kernelResume s i).takeLock k i) k i) i = isPrio s i := by
+    simp [isPrio, pqRemove, State.takeLock, kernelResume]
+  simp only [hlocked, if_true, howner, hprio]
+  by_cases hp : isPrio s i = true
+  · rw [hp] at hw
+    have hwo : ((pqRemove ((kernelResume s i).takeLock k i) k i).tasks i).waitingOn = some k := by
+      simp [pqRemove, State.takeLock, kernelResume, hw]
+    simp only [hp, if_true, clearWaitingOn_ok _ i k hwo]
+    refine ⟨_, rfl, ?_⟩
+    have hp' : (s.tasks i).prio.isSome = true := hp
+    apply state_ext <;> try rfl
+    · funext j; by_cases c : j = i <;>
+        simp [leaveAcquire, setWaitingOn, pqRemove, State.takeLock, kernelResume, rs1, c, hp']
+    · funext j; by_cases c : j = k <;>
+        simp [leaveAcquire, setWaitingOn, pqRemove, State.takeLock, kernelResume, rs1, c]
+  · have hp' : isPrio s i = false := by simpa using hp
+    rw [hp'] at hw
+    simp only [hp', Bool.false_eq_true, if_false]
+    refine ⟨_, rfl, ?_⟩
+    have hp'' : (s.tasks i).prio.isSome = false := hp'
+    have hw' : (s.tasks i).waitingOn = none := by simpa using hw
+    apply state_ext <;> try rfl
+    · funext j; by_cases c : j = i <;>
+        simp [leaveAcquire, pqRemove, State.takeLock, kernelResume, rs1, c, hp'', hw']
+    · funext j; by_cases c : j = k <;>
+        simp [leaveAcquire, pqRemove, State.takeLock, kernelResume, rs1, c]
+
+/-- the model's `Ev.resume` of a waiter that is resumed by an exception -/
+def modelResumeThrow (s : State) (i k : Nat) : State :=
+  if ((rs1 s i k).locks k).locked then
+    (match ((rs1 s i k).locks k).owner with
+     | some o => propT (rs1 s i k) (rs1 s i k).fuel o
+     | none => rs1 s i k)
+  else (rs1 s i k).wakeUpFirst k
+
+theorem doResume_acq_exc (s : State) (i k : Nat) (hp : (s.tasks i).pos = .acq k)
+    (hx : resumeExc (s.tasks i) = true) : s.doResume i = modelResumeThrow s i k := by
+  have : s.doResume i =
+      (let s2 := if resumeExc (s.tasks i) then rs1 s i k else (rs1 s i k).takeLock k i
+       if (s2.locks k).locked then
+         (if resumeExc (s.tasks i) then
+            (match (s2.locks k).owner with | some o => propT s2 s2.fuel o | none => s2) else s2)
+       else s2.wakeUpFirst k) := by
+    simp only [State.doResume, hp]; rfl
+  rw [this]
+  simp only [hx, if_true, modelResumeThrow]
+
+/-- **resumed by an exception** (cancellation, `task_throw`, `task_interrupt`, any exception): the
+    `finally` clause - the waiter leaves the queue; a free lock is passed on (`_wake_up_first`), a lock
+    held by another task has its owner re-keyed (`propagate_priority`) - and the exit of `_waiting_on`
+    are the model's `Ev.resume` of a waiter with an exception pending.  (Then the exception propagates.) -/
+theorem acquireResumeThrow_eq (s : State) (hpl : PlainHoldNothing s) (i k : Nat)
+    (hno : (s.locks k).owner ≠ some i)
+    (hw : (s.tasks i).waitingOn = if isPrio s i then some k else none) :
+    ∃ R, Gen.lockAcquireResumeThrow (kernelResume s i) k (isPrio s i) k i i i = .ok R ∧
+      leaveAcquire R i = modelResumeThrow s i k := by
+  have hrun : ((T s i k).tasks i).status = .running := by simp [T, pqRemove, kernelResume]
+  have hrunnable : ((T s i k).tasks i).status.runnable = true := by rw [hrun]; rfl
+  have hpT : ∀ o, isPrio (T s i k) o = isPrio s o := by
+    intro o; by_cases c : o = i <;> simp [isPrio, T, pqRemove, kernelResume, c]
+  have hpU : ∀ o, isPrio (upd (T s i k) i) o = isPrio s o := by
+    intro o; by_cases c : o = i <;> simp [isPrio, upd, T, pqRemove, kernelResume, c]
+  have hplT : PlainHoldNothing (T s i k) := by
+    intro j hj
+    by_cases c : j = i
+    · subst c; simp [T, pqRemove, kernelResume] at hj ⊢; exact hpl j hj
+    · simp [T, pqRemove, kernelResume, c] at hj ⊢; exact hpl j hj
+  unfold Gen.lockAcquireResumeThrow modelResumeThrow
+  rw [rs1_eq]
+  have hlk : (upd (T s i k) i).locks k = (T s i k).locks k := rfl
+  have hfl : (upd (T s i k) i).fuel = (T s i k).fuel := rfl
+  have fold : pqRemove (kernelResume s i) k i = T s i k := rfl
+  have hown : ((T s i k).locks k).owner = (s.locks k).owner := by simp [T, pqRemove, kernelResume]
+  have hwoT : ((T s i k).tasks i).waitingOn = (s.tasks i).waitingOn := by simp [T, pqRemove, kernelResume]
+  simp only [hlk, hfl, fold, lockLocked, lockOwning, hpT, wakeUpFirst_eq]
+  -- facts about the three states the exit of `_waiting_on` can run in
+  have hP : ∀ o, ((propT (T s i k) (T s i k).fuel o).tasks i).waitingOn = (s.tasks i).waitingOn ∧
+      isPrio (propT (T s i k) (T s i k).fuel o) i = isPrio s i := by
+    intro o
+    have e := propT_keyEq (T s i k) (T s i k).fuel o
+    exact ⟨by rw [e.waitingOn, hwoT], by rw [isPrio_keyEq e, hpT]⟩
+  have hW : (((T s i k).wakeUpFirst k).tasks i).waitingOn = (s.tasks i).waitingOn ∧
+      isPrio ((T s i k).wakeUpFirst k) i = isPrio s i := by
+    obtain ⟨f1, _, _, _, _, f6, _⟩ := wakeUpFirst_fields (T s i k) k i
+    exact ⟨by rw [f6, hwoT], by simp only [isPrio, f1]; exact hpT i⟩
+  by_cases hp : isPrio s i = true
+  · rw [hp] at hw
+    have hc : ∀ Y : State, (Y.tasks i).waitingOn = (s.tasks i).waitingOn →
+        Gen.taskSetWaitingOn Y i none = .ok (setWaitingOn Y i none) :=
+      fun Y h => clearWaitingOn_ok Y i k (by rw [h, hw]; simp)
+    by_cases hl : ((T s i k).locks k).locked = true
+    · simp only [hl, if_true]
+      cases ho : ((T s i k).locks k).owner with
+      | none =>
+        simp only [hp, hpT, if_true, hc _ hwoT]
+        exact ⟨_, rfl, leave_clear _ i⟩
+      | some o =>
+        have hoi : o ≠ i := by intro e; apply hno; rw [← hown, ho, e]
+        simp only [hoi, if_false]
+        by_cases hpo : isPrio s o = true
+        · have := (prop_eq (T s i k).fuel _ hplT).1 o k (by rw [hpT]; exact hpo)
+          simp only [hpo, if_true, this, hp, (hP o).2, hc _ (hP o).1]
+          refine ⟨_, rfl, ?_⟩
+          rw [leave_clear, upd_propT i _ _ o hrunnable]
+        · have hpo' : isPrio s o = false := by simpa using hpo
+          simp only [hpo', Bool.false_eq_true, if_false, hp, hpT, if_true, hc _ hwoT]
+          refine ⟨_, rfl, ?_⟩
+          rw [leave_clear, propT_plain (upd (T s i k) i) _ o (by rw [hpU]; exact hpo')]
+    · simp only [hl, Bool.false_eq_true, if_false, hp, hW.2, if_true, hc _ hW.1]
+      refine ⟨_, rfl, ?_⟩
+      rw [leave_clear, upd_wakeUpFirst _ i k hrun]
+  · have hp' : isPrio s i = false := by simpa using hp
+    rw [hp'] at hw
+    have hw' : (s.tasks i).waitingOn = none := by simpa using hw
+    by_cases hl : ((T s i k).locks k).locked = true
+    · simp only [hl, if_true]
+      cases ho : ((T s i k).locks k).owner with
+      | none =>
+        simp only [hp', Bool.false_eq_true, if_false]
+        exact ⟨_, rfl, leave_plain _ i (by rw [hwoT, hw'])⟩
+      | some o =>
+        have hoi : o ≠ i := by intro e; apply hno; rw [← hown, ho, e]
+        simp only [hoi, if_false]
+        by_cases hpo : isPrio s o = true
+        · have := (prop_eq (T s i k).fuel _ hplT).1 o k (by rw [hpT]; exact hpo)
+          simp only [hpo, if_true, this, hp', Bool.false_eq_true, if_false]
+          refine ⟨_, rfl, ?_⟩
+          rw [leave_plain _ i (by rw [(hP o).1, hw']), upd_propT i _ _ o hrunnable]
+        · have hpo' : isPrio s o = false := by simpa using hpo
+          simp only [hpo', Bool.false_eq_true, if_false, hp']
+          refine ⟨_, rfl, ?_⟩
+          rw [leave_plain _ i (by rw [hwoT, hw']), propT_plain (upd (T s i k) i) _ o (by rw [hpU]; exact hpo')]
+    · simp only [hl, Bool.false_eq_true, if_false, hp']
+      refine ⟨_, rfl, ?_⟩
+      rw [leave_plain _ i (by rw [hW.1, hw']), upd_wakeUpFirst _ i k hrun]
+
+end Asynkit.GenEqLock
+
+namespace Asynkit.GenEqLock
+open Asynkit Asynkit.Lock Asynkit.PrioGraph
+
+/-! ### the events of the model, in every state that satisfies the lock invariant -/
+
+theorem waitingOn_of_inv {s : State} (h : Inv s) (i k : Nat) (hp : (s.tasks i).pos = .acq k) :
+    (s.tasks i).waitingOn = if isPrio s i then some k else none := by
+  by_cases hpi : isPrio s i = true
+  · simp only [hpi, if_true]; exact (h.waitingPos i k).mpr ⟨hpi, hp⟩
+  · have hpi' : isPrio s i = false := by simpa using hpi
+    simp only [hpi', Bool.false_eq_true, if_false]
+    cases hw : (s.tasks i).waitingOn with
+    | none => rfl
+    | some k' => exact absurd ((h.waitingPos i k').mp hw).1 (by simpa [isPrio] using hpi)
+
+theorem waitingOn_running {s : State} (h : Inv s) (i : Nat) (hc : s.cur = some i) :
+    (s.tasks i).waitingOn = none := by
+  have htop := h.runningTop i ((h.curRunning i).mp hc)
+  cases hw : (s.tasks i).waitingOn with
+  | none => rfl
+  | some k' => have := ((h.waitingPos i k').mp hw).2; rw [htop] at this; cases this
+
+/-- `Ev.release k` is `PriorityLock.release()` called by the owner -/
+theorem ev_release {s : State} (h : Inv s) (k : Nat) (he : (Ev.release k).enabled s = true) :
+    ∃ i, s.cur = some i ∧ Gen.lockRelease (noteReleased s i k) k = .ok (s.apply (.release k)) := by
+  simp only [Ev.enabled] at he
+  cases hc : s.cur with
+  | none => simp [hc] at he
+  | some i =>
+    simp only [hc, beq_iff_eq] at he
+    refine ⟨i, rfl, ?_⟩
+    have hl : (s.locks k).locked = true := by rw [(h.linv k).lockedOwner, he]; rfl
+    simp only [State.apply, hc]
+    exact release_eq s (Inv.plain h) k i hc he hl
+
+/-- `Ev.badRelease k` is `PriorityLock.release()` called by a task that does not hold the lock: the call
+    raises and the state at the raise is the state before the call -/
+theorem ev_badRelease {s : State} (h : Inv s) (k : Nat) (he : (Ev.badRelease k).enabled s = true) :
+    (∃ e, Gen.lockRelease s k = .error (e, s)) ∧ s.apply (.badRelease k) = s := by
+  simp only [Ev.enabled] at he
+  cases hc : s.cur with
+  | none => simp [hc] at he
+  | some i =>
+    simp only [hc, bne_iff_ne, ne_eq] at he
+    exact ⟨release_refused s k i hc (h.linv k).lockedOwner he, rfl⟩
+
+/-- `Ev.acquire k` is the first segment of `PriorityLock.acquire()`: either it returns at once (lock
+    free, nobody queued) or it suspends at `await fut`; in both cases the state is the model's -/
+theorem ev_acquire {s : State} (h : Inv s) (k : Nat) (he : (Ev.acquire k).enabled s = true) :
+    ∃ i, s.cur = some i ∧
+      ((Gen.lockAcquireEntry (noteOwned s i k) k = .ok (s.apply (.acquire k), .returned)) ∨
+       (∃ S, Gen.lockAcquireEntry s k = .ok (S, .suspended k (isPrio s i) k i i i) ∧
+          queuedState S i k = s.apply (.acquire k))) := by
+  simp only [Ev.enabled] at he
+  cases hc : s.cur with
+  | none => simp [hc] at he
+  | some i =>
+    refine ⟨i, rfl, ?_⟩
+    simp only [State.apply, hc]
+    by_cases hf : (!(s.locks k).locked && (s.locks k).waiters.isEmpty) = true
+    · left
+      simp only [Bool.and_eq_true, Bool.not_eq_true', List.isEmpty_iff] at hf
+      have ho : (s.locks k).owner = none := by
+        have := (h.linv k).lockedOwner; rw [hf.1] at this
+        cases ho : (s.locks k).owner with
+        | none => rfl
+        | some o => rw [ho] at this; cases this
+      exact acquireEntry_fast s i k hc hf.1 hf.2 ho
+    · right
+      exact acquireEntry_slow s (Inv.plain h) i k hc hf (waitingOn_running h i hc)
+
+/-- `Ev.resume i` of a task suspended at `await fut` of `acquire(k)` is the rest of the coroutine:
+    resumed by the future's result when no exception is pending, by an exception otherwise.
+    (`hno`: a task does not wait for a lock it holds - excluded by the guard of `Ev.acquire`.) -/
+theorem ev_resume_acquire {s : State} (h : Inv s) (i k : Nat) (he : (Ev.resume i).enabled s = true)
+    (hp : (s.tasks i).pos = .acq k) (hno : (s.locks k).owner ≠ some i) :
+    (resumeExc (s.tasks i) = false →
+      ∃ R, Gen.lockAcquireResumeValue (noteOwned (kernelResume s i) i k) k (isPrio s i) k i i i = .ok R ∧
+        leaveAcquire R i = s.apply (.resume i)) ∧
+    (resumeExc (s.tasks i) = true →
+      ∃ R, Gen.lockAcquireResumeThrow (kernelResume s i) k (isPrio s i) k i i i = .ok R ∧
+        leaveAcquire R i = s.apply (.resume i)) := by
+  have hw := waitingOn_of_inv h i k hp
+  constructor
+  · intro hx
+    simp only [State.apply, doResume_acq_noexc s i k hp hx]
+    -- the waiter was woken by a result: the lock has no owner
+    have hk := h.linv k
+    obtain ⟨p, hp', e1⟩ := hk.queued i hp
+    have hwok := (hk.wok p hp').2
+    rw [e1] at hwok
+    have hres : p.2 = .result := by
+      simp only [resumeExc, Bool.or_eq_false_iff] at hx
+      cases hs : (s.tasks i).status with
+      | woken c => rw [hs] at hwok hx; simp only [WOK] at hwok; simp at hx; rw [hx.2] at hwok; simpa using hwok
+      | ready x => rw [hs] at hwok hx; simp only [WOK] at hwok; simp at hx; rw [hx.2] at hwok; cases hwok
+      | blocked => simp [Ev.enabled, hs] at he
+      | running => simp [Ev.enabled, hs] at he
+      | done => simp [Ev.enabled, hs] at he
+    have hfree : (s.locks k).locked = false := by
+      cases hl : (s.locks k).locked with
+      | false => rfl
+      | true => exact absurd hres (hk.lockedNoResult hl p hp')
+    have ho : (s.locks k).owner = none := by
+      have := hk.lockedOwner; rw [hfree] at this
+      cases ho : (s.locks k).owner with
+      | none => rfl
+      | some o => rw [ho] at this; cases this
+    exact acquireResumeValue_eq s i k ho hw
+  · intro hx
+    simp only [State.apply, doResume_acq_exc s i k hp hx]
+    exact acquireResumeThrow_eq s (Inv.plain h) i k hno hw
+
+end Asynkit.GenEqLock
